@@ -4,6 +4,7 @@ import (
 	"bytes"
 	"encoding/json"
 	"fmt"
+	"strconv"
 	"time"
 
 	"git.sr.ht/~mariusor/go-xsd-duration"
@@ -80,7 +81,8 @@ func JSONWriteIntProp(b *[]byte, n string, d int64) (notEmpty bool) {
 }
 
 func JSONWriteFloatProp(b *[]byte, n string, f float64) (notEmpty bool) {
-	return JSONWriteProp(b, n, []byte(fmt.Sprintf("%f", f)))
+	// the shortest decimal text that parses back to exactly f (no exponent, no fixed six decimals)
+	return JSONWriteProp(b, n, []byte(strconv.FormatFloat(f, 'f', -1, 64)))
 }
 
 func JSONWriteTimeProp(b *[]byte, n string, t time.Time) (notEmpty bool) {
